@@ -29,6 +29,7 @@ def write_replay(prop, scenario, tier, verif_seed, orig, tape, final, orig_len, 
         "versions": versions(),
         "case": final.get("sample"),
         "trace": final.get("trace"),
+        "schedule_trace_tail": final.get("sched_trace"),
         "events_tail": (final.get("events") or [])[-60:],
         "how_to_replay": f"cd /verif && ./check {prop} --replay {path}",
     }
